@@ -1013,6 +1013,18 @@ where
     ))
 }
 
+fn op_cmp3<T>(s1: &str, s2: &str, s3: &str) -> Result<String, String>
+where
+    T: BuildShape + FromStr + Eq + Ord + Hash,
+    <T as PurlShape>::Error: ErrName + From<ParseError> + From<<T as FromStr>::Err>,
+{
+    let (a, b, c) = (value_of::<T>(s1)?, value_of::<T>(s2)?, value_of::<T>(s3)?);
+    let (Some(a), Some(b), Some(c)) = (a, b, c) else {
+        return Ok("NOVALUE".to_string());
+    };
+    Ok(format!("ab={} bc={} ac={}", ord_name(a.cmp(&b)), ord_name(b.cmp(&c)), ord_name(a.cmp(&c))))
+}
+
 // ---------------------------------------------------------------- package type ops
 
 #[cfg(feature = "package-type")]
@@ -1343,6 +1355,12 @@ fn dispatch(line: &str) -> Result<String, String> {
             "M" => op_cmp::<Small>(arg(&t, 2)?, arg(&t, 3)?),
             #[cfg(feature = "package-type")]
             "P" => op_cmp::<PackageType>(arg(&t, 2)?, arg(&t, 3)?),
+            _ => Ok("NA".to_string()),
+        },
+        "cmp3" => match arg(&t, 1)? {
+            "S" => op_cmp3::<String>(arg(&t, 2)?, arg(&t, 3)?, arg(&t, 4)?),
+            #[cfg(feature = "package-type")]
+            "P" => op_cmp3::<PackageType>(arg(&t, 2)?, arg(&t, 3)?, arg(&t, 4)?),
             _ => Ok("NA".to_string()),
         },
         #[cfg(feature = "package-type")]
